@@ -1048,17 +1048,26 @@ static int vnadata_save_common(vnadata_t *vdp, FILE *fp, const char *filename,
      */
     {
 	bool changed = false;
+	bool fixed[vdip->vdi_format_count];
 
 	for (int i = 0; i < vdip->vdi_format_count; ++i) {
 	    vnadata_format_descriptor_t *vfdp = &vdip->vdi_format_vector[i];
 
+	    fixed[i] = false;
 	    if (vfdp->vfd_parameter == VPT_UNDEF) {
 		vfdp->vfd_parameter = type;
+		fixed[i] = true;
 		changed = true;
 	    }
 	}
 	if (changed) {
 	    if (_vnadata_update_format_string(vdip) == -1) {
+		/* keep the vector in step with the unchanged string */
+		for (int i = 0; i < vdip->vdi_format_count; ++i) {
+		    if (fixed[i]) {
+			vdip->vdi_format_vector[i].vfd_parameter = VPT_UNDEF;
+		    }
+		}
 		goto out;
 	    }
 	}
